@@ -213,6 +213,25 @@ func deciderOf(v ssa.Value) string {
 		}
 		return op
 	case *ssa.Phi:
+		// one variable assigned from calls to the same function on different paths (err from NewSession(a) / NewSession(b)):
+		// named by that function, as the single call it can be merged into would be
+		same := ""
+		for _, e := range x.Edges {
+			if e == ssa.Value(x) || isNilConst(e) {
+				continue
+			}
+			if _, isPhi := e.(*ssa.Phi); isPhi {
+				return "phi"
+			}
+			d := deciderOf(e)
+			if d == "value" || d == "load" || (same != "" && d != same) {
+				return "phi"
+			}
+			same = d
+		}
+		if same != "" {
+			return same
+		}
 		return "phi"
 	case *ssa.TypeAssert:
 		return "typeassert"
@@ -375,7 +394,9 @@ func paramFields(fn *ssa.Function, v ssa.Value) []string {
 				return
 			}
 			if cal := y.Call.StaticCallee(); cal != nil && cal.Signature.Recv() != nil && len(y.Call.Args) > 0 && cal.Pkg != nil && strings.HasPrefix(cal.Pkg.Pkg.Path(), modPath) {
-				if n, ok := rootParam(y.Call.Args[0], 0); ok && n != "" {
+				// accessor-style labels (recv.SelfID(), recv.Hash(), free:Helper.PartyIDs()) only for the object the
+				// function belongs to; a method called on another parameter is labelled by that parameter
+				if n, ok := rootParam(y.Call.Args[0], 0); ok && n != "" && (n == "recv" || strings.HasPrefix(n, "free:")) {
 					set[n+"."+cal.Name()+"()"] = true
 					for _, a := range y.Call.Args[1:] {
 						rec(a, d+1)
@@ -847,6 +868,10 @@ func liftedGuards(fn *ssa.Function, depth int) []guard {
 			if ls := paramFields(fn, call.Call.Args[0]); len(ls) == 1 && strings.HasPrefix(ls[0], "local:") {
 				onParam = true
 			}
+			// ... or, inside a closure, of an object the closure captured (p.verifyRound(i) in Verify's worker closure)
+			if ls := paramFields(fn, call.Call.Args[0]); fn.Parent() != nil && len(ls) == 1 && strings.HasPrefix(ls[0], "free:") {
+				onParam = true
+			}
 		}
 		if onParam {
 			// lifted below with the receiver translated into the caller's label of that parameter
@@ -876,8 +901,24 @@ func liftedGuards(fn *ssa.Function, depth int) []guard {
 		if !isLocalHelper(fn, g) || g == fn {
 			return
 		}
-		if g.Signature.Recv() != nil && (fn.Signature.Recv() == nil || len(call.Call.Args) == 0 || call.Call.Args[0] != ssa.Value(fn.Params[0])) {
-			return
+		onParam := false
+		if g.Signature.Recv() != nil {
+			switch {
+			case len(call.Call.Args) == 0:
+				return
+			case fn.Signature.Recv() != nil && call.Call.Args[0] == ssa.Value(fn.Params[0]):
+				// a method of the same object
+			case fn.Parent() != nil:
+				// a closure calling a method of a captured object (the worker closure of Verify calling p.verifyRound):
+				// the helper's receiver is translated into the closure's label for that object
+				if ls := paramFields(fn, call.Call.Args[0]); len(ls) == 1 && strings.HasPrefix(ls[0], "free:") {
+					onParam = true
+				} else {
+					return
+				}
+			default:
+				return
+			}
 		}
 		var ret *ssa.Return
 		tail := len(*call.Referrers()) > 0
@@ -909,7 +950,7 @@ func liftedGuards(fn *ssa.Function, depth int) []guard {
 		if !tail || ret == nil {
 			return
 		}
-		out = append(out, liftFrom(fn, call, g, false, true, nil, ret, nil, depth)...)
+		out = append(out, liftFrom(fn, call, g, onParam, true, nil, ret, nil, depth)...)
 	})
 	return out
 }
@@ -972,9 +1013,22 @@ func liftFrom(fn *ssa.Function, call *ssa.Call, g *ssa.Function, onParam bool, c
 				}
 			}
 			for k := range set {
-				if !contextLabel(k) {
-					fields = append(fields, k)
+				if contextLabel(k) {
+					continue
 				}
+				// a bare parameter next to one of its fields adds nothing (same convention as paramFields)
+				if !strings.ContainsAny(k, ".[") {
+					covered := false
+					for k2 := range set {
+						if strings.HasPrefix(k2, k+".") || strings.HasPrefix(k2, k+"[") {
+							covered = true
+						}
+					}
+					if covered {
+						continue
+					}
+				}
+				fields = append(fields, k)
 			}
 			sort.Strings(fields)
 			lg := guard{fn: fn, iff: Giff, ret: Gret, decider: S.decider, fields: fields, cond: S.cond, pos: S.pos, passBlk: GpassBlk, inner: S.iff}
